@@ -349,8 +349,16 @@ func (e *seqEngine) Exec(op *Op) string {
 		}
 		budget, _ := strconv.Atoi(op.Arg("budget"))
 		lowuse, _ := strconv.Atoi(op.Arg("lowuse"))
-		ctx := &countCtx{Context: context.Background(), left: budget}
-		reclaimed, err := e.mp.VerifGC(ctx, int64(lowuse), 0)
+		var reclaimed int64
+		var err error
+		if op.Arg("tl") == "1" {
+			// the collector's own time limit, set so low that it has expired by the time the first file is done: the freelist
+			// phase is not subject to it, so a cycle hands over, applies and visits exactly one file
+			reclaimed, err = e.mp.VerifGC(context.Background(), int64(lowuse), time.Nanosecond)
+		} else {
+			ctx := &countCtx{Context: context.Background(), left: budget}
+			reclaimed, err = e.mp.VerifGC(ctx, int64(lowuse), 0)
+		}
 		if err == context.DeadlineExceeded {
 			return "deadline"
 		}
